@@ -46,35 +46,35 @@ func (f *F) hasQ() bool {
 	return false
 }
 
-var qvarCounter int
+// render gives the full SMT term of f (with real quantifiers); bound variables are named by nesting depth, so that
+// two renderings of the same formula are identical strings
+func render(f *F) string { return renderD(f, 0) }
 
-// render gives the full SMT term of f (with real quantifiers)
-func render(f *F) string {
+func renderD(f *F, depth int) string {
 	switch f.Op {
 	case "atom":
 		return f.S
 	case "and":
 		var ks []string
 		for _, k := range f.Kids {
-			ks = append(ks, render(k))
+			ks = append(ks, renderD(k, depth))
 		}
 		return sAnd(ks...)
 	case "or":
 		var ks []string
 		for _, k := range f.Kids {
-			ks = append(ks, render(k))
+			ks = append(ks, renderD(k, depth))
 		}
 		return sOr(ks...)
 	case "not":
-		return sNot(render(f.Kids[0]))
+		return sNot(renderD(f.Kids[0], depth))
 	case "imp":
-		return sImp(render(f.Kids[0]), render(f.Kids[1]))
+		return sImp(renderD(f.Kids[0], depth), renderD(f.Kids[1], depth))
 	case "iff":
-		return sEq(render(f.Kids[0]), render(f.Kids[1]))
+		return sEq(renderD(f.Kids[0], depth), renderD(f.Kids[1], depth))
 	case "forall", "exists":
-		qvarCounter++
-		v := fmt.Sprintf("%s?%d", f.Var, qvarCounter)
-		body := render(f.Body(v))
+		v := fmt.Sprintf("%s?%d", f.Var, depth)
+		body := renderD(f.Body(v), depth+1)
 		g := sAnd(sLe(f.Lo, v), sLt(v, f.Hi))
 		if f.Op == "forall" {
 			return fmt.Sprintf("(forall ((%s Int)) %s)", v, sImp(g, body))
@@ -171,14 +171,18 @@ func (x *Exec) assumeG(st *State, guard string, f *F) {
 		st.addIdx(c)
 		x.assumeG(st, guard, x.bodyLogged(st, f, c))
 	case "forall":
-		if guard == "true" {
-			st.pc = append(st.pc, PCItem{QF: f})
+		if guard != "true" {
+			body := f.Body
+			f = &F{Op: "forall", Var: f.Var, Lo: f.Lo, Hi: f.Hi, Body: func(t string) *F {
+				return &F{Op: "or", Kids: []*F{atom(sNot(guard)), body(t)}}
+			}}
+		}
+		key := render(f)
+		if st.qfSeen[key] {
 			return
 		}
-		body := f.Body
-		st.pc = append(st.pc, PCItem{QF: &F{Op: "forall", Var: f.Var, Lo: f.Lo, Hi: f.Hi, Body: func(t string) *F {
-			return &F{Op: "or", Kids: []*F{atom(sNot(guard)), body(t)}}
-		}}})
+		st.qfSeen[key] = true
+		st.pc = append(st.pc, PCItem{QF: f})
 	case "or":
 		if !f.hasQ() {
 			st.assume(sImp(guard, render(f)))
@@ -280,13 +284,25 @@ func (x *Exec) instantiate(f *F, terms []IdxT, depth int, out *[]string) {
 		seqs := x.seqsOf(f)
 		n := 0
 		done := map[string]bool{}
+		// terms that index the same sequence first, wildcards after
+		var ordered []IdxT
 		for _, it := range terms {
-			if done[it.T] || !relevant(it, seqs) {
+			if it.Seq != "" && relevant(it, seqs) {
+				ordered = append(ordered, it)
+			}
+		}
+		for _, it := range terms {
+			if it.Seq == "" || len(seqs) == 0 {
+				ordered = append(ordered, it)
+			}
+		}
+		for _, it := range ordered {
+			if done[it.T] {
 				continue
 			}
 			done[it.T] = true
 			n++
-			if (depth == 0 && n > 16) || (depth == 1 && n > 8) {
+			if (depth == 0 && n > 16) || (depth == 1 && n > 10) {
 				break
 			}
 			t := it.T
@@ -347,6 +363,9 @@ func (x *Exec) proveNNF(fr *Frame, st *State, name, kind string, f *F, in ssa.In
 			return
 		}
 	case "forall":
+		if st.qfSeen[render(f)] {
+			return // literally one of the assumptions
+		}
 		s2 := st.clone()
 		c := x.decls.Fresh("sk."+f.Var, "Int")
 		s2.assume(sAnd(sLe(f.Lo, c), sLt(c, f.Hi)))
@@ -1231,7 +1250,15 @@ func (e *SpecEnv) specFunc(sf *SpecFunc, argExprs []ast.Expr) Val {
 		}
 		args = append(args, v)
 	}
-	if sf.Body == nil || sf.Rec {
+	opaque := false
+	if e.x.con != nil {
+		for _, n := range strings.Split(e.x.con.Opts["opaque"], ",") {
+			if strings.TrimSpace(n) == sf.Name {
+				opaque = true
+			}
+		}
+	}
+	if sf.Body == nil || sf.Rec || opaque {
 		// uninterpreted (or recursive: uninterpreted + unfold hints)
 		var sorts, terms []string
 		for i, a := range args {
